@@ -62,6 +62,32 @@ def dbg(*a):
         print(f"[{time.time() - _T0:7.1f}s]", *a, file=sys.stderr, flush=True)
 
 
+SIMCLOCK_SO = os.path.join(VERIF, ".build", "libsimclock.so")
+SIMCLOCK_SRC = os.path.join(HERE, "simclock.c")
+
+
+def ensure_simclock():
+    """Build the LD_PRELOAD clock() shim if a C compiler is there (setup_cmd does the same).
+    Returns True if the shim is available."""
+    try:
+        if os.path.exists(SIMCLOCK_SO) and os.path.getmtime(SIMCLOCK_SO) >= os.path.getmtime(SIMCLOCK_SRC):
+            return True
+        os.makedirs(os.path.dirname(SIMCLOCK_SO), exist_ok=True)
+        for cc in ("clang", "gcc", "cc"):
+            if shutil.which(cc):
+                tmp = SIMCLOCK_SO + f".{os.getpid()}.tmp"
+                r = subprocess.run([cc, "-shared", "-fPIC", "-O2", "-o", tmp, SIMCLOCK_SRC], capture_output=True)
+                if r.returncode == 0:
+                    os.replace(tmp, SIMCLOCK_SO)
+                    return True
+        return False
+    except OSError:
+        return False
+
+
+_SIMCLOCK = [None]
+
+
 def derive_seed(master, prop, index):
     h = hashlib.sha256(f"{master}/{prop}/{index}".encode()).digest()
     return int.from_bytes(h[:6], "big")
@@ -87,6 +113,12 @@ def run_world(scn, widx, verbose=False):
         "VERIF_REPO": REPO,
         "VERIF_SCRATCH": scratch,
     }
+    if _SIMCLOCK[0] is None:
+        _SIMCLOCK[0] = ensure_simclock()
+    if _SIMCLOCK[0]:
+        # clock() as C extensions see it (regex's timeout=) is simulated too, from the same env_seed
+        env["LD_PRELOAD"] = SIMCLOCK_SO
+        env["VERIF_SIMCLOCK_SEED"] = str(int(w.get("env_seed", 0) or 0))
     e = w.get("env") or {}
     if e.get("LC_ALL"):
         env["LC_ALL"] = e["LC_ALL"]
@@ -757,6 +789,7 @@ def run_check(prop, tier, master, only_index=None):
             "simulated_steps": totals.get("sched_events", 0),
             "counters": totals,
             "fs_counters": fs_totals,
+            "c_clock_seam": "LD_PRELOAD clock() shim active (sim/simclock.c)" if _SIMCLOCK[0] else "absent (no C compiler): clock() in C extensions is the real one",
             "clock_and_random_seam": dict(env_totals, note="simulated clock / urandom / random.seed per world; reads by the code under test (0 = the tree consults neither, the seam is inert)"),
             "faults_injected": fault_summary(prop, totals, fs_totals, hashseeds, enum_seeds),
             "kernel": dict(kernel_totals, note="tier 2: threads started by the code under test become kernel tasks; lib_threads_started = 0 means the tree starts none and the shim is inert"),
